@@ -141,6 +141,67 @@ pub fn drive(log: &mut Log) {
     flush(&mut batch, &mut case, log);
     log.oblige("orf_exhaustive_small");
 
+    // (c) codons containing 0x00 in each position (and other "default" bytes), sequences whose head is a
+    //     proper suffix of a start/stop codon followed by in-frame filler and a stop codon, and every
+    //     sequence shorter than a codon: nothing may be matched before three symbols have been read
+    {
+        let sets: Vec<(Vec<Codon>, Vec<Codon>)> = vec![
+            (vec![[0, 0, b'A'], [0, b'A', b'T']], vec![[b'T', 0, 0], [b'T', b'A', b'G']]),
+            (vec![[0, 0, 0]], vec![[1, 0, 0], [0, 1, 0]]),
+            (vec![[b'A', 0, b'G'], [0, 0, 1]], vec![[0, 0, 0], [b'T', b'A', 0]]),
+            (vec![[b' ', b' ', b'A'], [255, 255, b'A']], vec![[b'T', b'A', b'A']]),
+        ];
+        for (si, (starts, stops)) in sets.iter().enumerate() {
+            for ml in [0usize, 1, 3] {
+                case += 1;
+                if !log.mine(case) {
+                    continue;
+                }
+                let mut rng = Rng::new(seed, 33, case);
+                let mut alpha: Vec<u8> = vec![0, 1, b'A', b'T', b'G'];
+                for c in starts.iter().chain(stops.iter()) {
+                    alpha.extend_from_slice(&c[..]);
+                }
+                alpha.sort_unstable();
+                alpha.dedup();
+                let mut seqs: Vec<Vec<u8>> = vec![vec![]];
+                // every sequence of length 1 and 2 over the alphabet
+                for &a in &alpha {
+                    seqs.push(vec![a]);
+                    for &b in &alpha {
+                        seqs.push(vec![a, b]);
+                    }
+                }
+                for c in starts.iter().chain(stops.iter()) {
+                    for l in 1..=2usize {
+                        let head = &c[3 - l..];
+                        for stop in stops.iter() {
+                            for t in 0..3usize {
+                                // head, t filler triplets that are neither start nor stop, an in-frame stop
+                                let mut s = head.to_vec();
+                                for _ in 0..t {
+                                    s.extend_from_slice(&[b'G', b'G', b'G']);
+                                }
+                                s.extend_from_slice(&stop[..]);
+                                let extra = rng.below(4) as usize;
+                                s.extend(rng.seq(extra, &alpha));
+                                seqs.push(s);
+                            }
+                        }
+                        // the same head in front of a soup
+                        let mut s = head.to_vec();
+                        s.extend(soup(&mut rng, 30, starts, stops, &alpha));
+                        seqs.push(s);
+                    }
+                }
+                run_finder(log, "nul", starts, stops, ml, &seqs);
+                if si < 3 {
+                    log.oblige("orf_codons_with_nul_and_suffix_heads");
+                }
+            }
+        }
+    }
+
     // (b) codon soups up to 300 symbols, four start/stop sets, all listed min_len values, then
     //     min_len placed around the lengths that were reported (the > / >= boundary)
     let nsoup = log.opts.n(48, 600);
